@@ -142,7 +142,6 @@ class Driver:
             fresh = mk_info(op["svc"])
             info = old
             info.port, info.weight, info.priority = fresh.port, fresh.weight, fresh.priority
-            info.server, info.server_key = fresh.server, fresh.server_key
             info.text = fresh.text
             info.host_ttl, info.other_ttl = fresh.host_ttl, fresh.other_ttl
             info.addresses = fresh.addresses_by_version(IPVersion.All)
@@ -164,6 +163,11 @@ class Driver:
             # although the service was updated with a new object since
             info = self.first_infos.get((h.name, op["name"].lower()), info)
         if info is None:
+            return None
+        if any(e["op"] == "register" and e["host"] == h.name and e["t_done"] is None and
+               e["args"].lower() == op["name"].lower() for e in self.w.api_log):
+            # unregistering a name whose registration has not returned yet is outside every property's quantifier
+            # (sequences of API calls, not overlapping ones): the call is not made
             return None
         e = self.w.spawn(h, "unregister", lambda: h.azc.async_unregister_service(info), op["name"])
         e["info"] = info
